@@ -11,6 +11,8 @@ def drop_task(m, i):
         tm["targets"] = [x - (x > i) for x in tm["targets"] if x != i]
     for wp in m.get("wps", []):
         wp["targets"] = [x - (x > i) for x in wp["targets"] if x != i]
+    if m.get("order"):
+        m["order"] = [x - (x > i) for x in m["order"] if x != i]
     return m
 
 
@@ -73,6 +75,10 @@ def model_candidates(m):
             c = copy.deepcopy(m)
             c["wps"][pi]["inputs"] = []
             yield c
+    if m.get("order"):
+        c = copy.deepcopy(m)
+        c.pop("order")
+        yield c
     # simplify attributes
     for i, (a, b, k) in enumerate(m.get("deps", [])):
         if k != 0:
